@@ -45,11 +45,7 @@ fn row<'tcx>(tcx: TyCtxt<'tcx>, tr: &'tcx TypeckResults<'tcx>, e: &hir::Expr<'tc
             if let hir::ExprKind::Path(qp) = &f.kind {
                 if let Res::Def(_, did) = tr.qpath_res(qp, f.hir_id) {
                     let p = def_str(tcx, did);
-                    match ctor {
-                        None => *ctor = Some(p),
-                        Some(c) if *c == p => {}
-                        Some(_) => return None,
-                    }
+                    *ctor = Some(p);
                     let mut vals = Vec::new();
                     for a in *args {
                         vals.push(J::Num(int_lit(a)?));
@@ -65,6 +61,20 @@ fn row<'tcx>(tcx: TyCtxt<'tcx>, tr: &'tcx TypeckResults<'tcx>, e: &hir::Expr<'tc
                 vals.push(J::Num(int_lit(x)?));
             }
             Some(J::Arr(vals))
+        }
+        hir::ExprKind::Struct(qp, fields, _) => {
+            // struct literal with literal fields: values in field-name order
+            if let Res::Def(_, did) = tr.qpath_res(qp, e.hir_id) {
+                let p = format!("struct:{}", def_str(tcx, did));
+                *ctor = Some(p);
+                let mut fs: Vec<(&str, i128)> = Vec::new();
+                for f in *fields {
+                    fs.push((f.ident.name.as_str(), int_lit(f.expr)?));
+                }
+                fs.sort();
+                return Some(J::Arr(fs.into_iter().map(|(_, v)| J::Num(v)).collect()));
+            }
+            None
         }
         _ => None,
     }
@@ -95,12 +105,16 @@ pub fn consts(tcx: TyCtxt<'_>) -> J {
         let v = strip(body.value);
         let mut done = false;
         if let hir::ExprKind::Array(elems) = &v.kind {
-            let mut ctor = None;
             let mut rows = Vec::new();
+            let mut ctors: Vec<Option<String>> = Vec::new();
             let mut ok = true;
             for e in *elems {
+                let mut ctor = None;
                 match row(tcx, tr, e, &mut ctor) {
-                    Some(r) => rows.push(r),
+                    Some(r) => {
+                        rows.push(r);
+                        ctors.push(ctor);
+                    }
                     None => {
                         ok = false;
                         break;
@@ -109,7 +123,13 @@ pub fn consts(tcx: TyCtxt<'_>) -> J {
             }
             if ok {
                 o.push(("rows".to_string(), J::Arr(rows)));
-                o.push(("ctor".to_string(), ctor.map(J::Str).unwrap_or(J::Null)));
+                let uniform = ctors.windows(2).all(|w| w[0] == w[1]);
+                if uniform {
+                    o.push(("ctor".to_string(), ctors.first().cloned().flatten().map(J::Str).unwrap_or(J::Null)));
+                } else {
+                    o.push(("ctor".to_string(), J::s("mixed")));
+                    o.push(("row_ctors".to_string(), J::Arr(ctors.into_iter().map(|c| c.map(J::Str).unwrap_or(J::Null)).collect())));
+                }
                 done = true;
             }
         }
